@@ -8,7 +8,8 @@ mkdir -p .cache
 cargo build --offline --manifest-path harness/Cargo.toml --bins 2>&1 | tail -3
 CARGO_TARGET_DIR="$root/.cache/target-plain" cargo build --offline --manifest-path harness_plain/Cargo.toml --bins 2>&1 | tail -1
 CARGO_TARGET_DIR="$root/.cache/target-plain" cargo build --offline --release --manifest-path harness_plain/Cargo.toml --bins 2>&1 | tail -1
-[ -x tools/gen_tables.py ] && python3 tools/gen_tables.py || true
+python3 tools/gen_tables.py || true
+python3 tools/gen_builtin_names.py || true
 # 2. the whole Coq development (full .vo build)
 python3 tools/coqmake.py | grep -v 'Closed under the global context' | tail -40
 # 3. extracted models
